@@ -25,6 +25,7 @@ FINGERPRINT = [
     "canopen.pdo.base:PdoVariable.set_data",
     "canopen.pdo.base:PdoVariable.__init__",
     "canopen.pdo.base:PdoMap.add_variable",
+    "canopen.pdo.base:PdoMap.clear",
     "canopen.pdo.base:PdoMap._update_data_size",
     "canopen.variable:Variable.raw",
     "canopen.variable:Variable.data",
@@ -63,9 +64,14 @@ def the_od():
     return _OD
 
 
-def build(layout):
+def build(layout, before=None):
     node = canopen.RemoteNode(1, the_od())
     m = PdoMap(PdoBase(node), None, None)
+    if before is not None:
+        # history: the map held other variables and was cleared (`old|new`)
+        for t, ln in before:
+            m.add_variable(0x2000 + t, 0, ln)
+        m.clear()
     vars_ = []
     for t, ln in layout:
         vars_.append(m.add_variable(0x2000 + t, 0, ln))
@@ -73,14 +79,20 @@ def build(layout):
 
 
 def parse_layout(s):
+    """the layout in force; `old|new` = `new` mapped after a map holding `old` was cleared"""
+    s = s.split("|")[-1]
     return [tuple(int(x) for x in e.split(":")) for e in s.split(",")]
+
+
+def parse_before(s):
+    return parse_layout(s.split("|")[0]) if "|" in s else None
 
 
 def run_impl(op):
     a = op.split(" ")
     layout = parse_layout(a[1])
     try:
-        m, vs = build(layout)
+        m, vs = build(layout, parse_before(a[1]))
     except Exception:
         return "err"
     if a[0] == "lay":
@@ -274,6 +286,9 @@ def gen_ops(tier, rng):
     nfr = 1 if tier == "quick" else 3
     for lay in layouts:
         ls = ",".join(f"{t}:{l}" for t, l in lay)
+        if rng.random() < 0.12:
+            old = rng.choice(layouts)
+            ls = ",".join(f"{t}:{l}" for t, l in old) + "|" + ls
         yield f"lay {ls}"
         size = (sum(l for _, l in lay) + 7) // 8
         idxs = range(len(lay)) if len(lay) <= 2 else [rng.randrange(len(lay)) for _ in range(2)]
@@ -290,6 +305,7 @@ def gen_ops(tier, rng):
 
 
 CORPUS = [
+    "lay 5:8,5:8,5:8|2:4,2:4,2:4",      # a map that is cleared and filled again starts at bit 0 again
     "get 1:1,6:16 000001 1",            # F2: UNSIGNED16 at bit offset 1 spills out of its byte window
     "set 1:1,6:16 000000 1 int 65535",
     "get 2:4 08 0",                     # F2: most negative 4-bit value
